@@ -930,10 +930,18 @@ def explore(fn, timeout_ms=10000, prefix=(), max_paths=200000, sample_every=0, b
                 st["obligations"] += 1
                 bn = st["by_name"].setdefault(ob.name, [0, 0])
                 bn[0] += 1
+                raw_trivial = z3.is_true(ob.formula)
                 f = z3.simplify(ob.formula)
                 if z3.is_true(f):
                     st["discharged"] += 1
                     bn[1] += 1
+                    if not raw_trivial:
+                        st["nontrivial"] += 1
+                        st["by_rewriter"] = st.get("by_rewriter", 0) + 1
+                        if len(st["samples"]) < 2:
+                            s_ = str(ob.formula)
+                            st["samples"].append(dict(ob=ob.name, choices=[list(c) for c in sp.choices], decided="z3 simplifier (polynomial normal form)",
+                                                      formula=s_[:400] + ("..." if len(s_) > 400 else "")))
                     continue
                 st["nontrivial"] += 1
                 if dump_dir and st["nontrivial"] % 50 == 1:
